@@ -57,6 +57,8 @@ def build_network(net):
     n = neuroml.Network(id=net["id"])
     for p in net.get("pops", []):
         pop = neuroml.Population(id=p["id"], component=p["comp"], size=p["size"])
+        for tag, val in p.get("props", []):
+            pop.properties.append(neuroml.Property(tag=tag, value=val))
         if p.get("instances"):
             pop.type = "populationList"
             for (i, x, y, z) in p["instances"]:
@@ -91,9 +93,16 @@ def build_network(net):
 def write_pool(d, pool):
     for f in pool:
         path = os.path.join(d, f["name"])
+        os.makedirs(os.path.dirname(path), exist_ok=True)
         if f.get("raw") is not None:
             with open(path, "w") as fh:
                 fh.write(f["raw"])
+            continue
+        if f["kind"] == "rawh5":      # a valid HDF5 file that is not NeuroML
+            import tables
+            h = tables.open_file(path, mode="w")
+            h.create_group("/", "morphology0", "not neuroml")
+            h.close()
             continue
         doc = neuroml.NeuroMLDocument(id=f.get("doc_id", "doc_" + f["name"].split(".")[0]))
         for inc in f.get("includes", []):
@@ -122,6 +131,15 @@ def num(x):
     return int(f) if f == int(f) else round(f, 6)
 
 
+def doc_types(doc):
+    out = []
+    for name, val in inspect.getmembers(doc):
+        if isinstance(val, list) and not name.endswith("_") and name != "includes":
+            for e in val:
+                out.append("%s:%s:%s" % (name, getattr(e, "id", "?"), type(e).__name__))
+    return sorted(out)
+
+
 def doc_items(doc):
     items, incs = [], []
     for name, val in inspect.getmembers(doc):
@@ -142,7 +160,7 @@ def net_dump(doc):
             insts = []
             for i in p.instances:
                 insts.append([num(i.id), num(i.location.x), num(i.location.y), num(i.location.z)])
-            e = [p.id, p.component, num(p.size), p.type, insts]
+            e = [p.id, p.component, num(p.size), p.type, insts, sorted([str(q.tag), str(q.value)] for q in p.properties)]
             if hasattr(p.instances, "indices"):
                 e.append({"indices": sorted([k, int(v)] for k, v in p.instances.indices.items())})
             pops.append(e)
@@ -233,17 +251,128 @@ def meta_diff(before, after):
     return out[:6]
 
 
+class OldApiHandler(object):
+    def __init__(self):
+        self.calls = []
+
+    def _rec(name):
+        def f(self, *a, **kw):
+            self.calls.append(name)
+        return f
+
+    handleNetwork = _rec("handleNetwork")
+    handleDocumentStart = _rec("handleDocumentStart")
+    handleLocation = _rec("handleLocation")
+    handleProjection = _rec("handleProjection")
+    finaliseProjection = _rec("finaliseProjection")
+    handleConnection = _rec("handleConnection")
+    handleInputList = _rec("handleInputList")
+    handleSingleInput = _rec("handleSingleInput")
+    finaliseInputSource = _rec("finaliseInputSource")
+
+    def handlePopulation(self, population_id, component, size=-1, component_obj=None, properties={}):
+        self.calls.append("handlePopulation")
+
+
+class NoPropsHandler(DefaultNetworkHandler):
+    def __init__(self):
+        self.calls = []
+
+    def handle_population(self, population_id, component, size=-1, component_obj=None):
+        self.calls.append("handle_population:" + str(population_id))
+
+
+# ------------------------------------------------------------------------ process-state invariant
+import locale as _locale  # noqa: E402
+import warnings as _warnings  # noqa: E402
+
+
+def proc_snapshot():
+    root = logging.getLogger()
+    return {"cwd": os.getcwd(), "environ": dict(os.environ), "sys.path": list(sys.path),
+            "warnings-filters": [repr(f) for f in _warnings.filters], "recursionlimit": sys.getrecursionlimit(),
+            "locale": list(_locale.getlocale()), "logging": [root.level, len(root.handlers), logging.root.manager.disable]}
+
+
+IGNORE_ALL = repr(("ignore", None, Warning, None, 0))
+
+
+def proc_diff(b, a, failed):
+    out = []
+    for k in b:
+        if a[k] == b[k]:
+            continue
+        e = {"what": k, "after_failure": bool(failed)}
+        if k == "warnings-filters":
+            if not a[k] and b[k]:
+                e["how"] = "emptied"          # warnings.resetwarnings(): every installed filter (the user's too) is gone
+            elif a[k] == [IGNORE_ALL] + b[k] and failed:
+                e["how"] = "ignore-left"      # simplefilter("ignore") not undone on the exception path
+            else:
+                e["how"] = "other"
+            e["before"], e["after"] = b[k][:3], a[k][:3]
+            e["before_len"], e["after_len"] = len(b[k]), len(a[k])
+        elif k == "environ":
+            e["before"] = sorted(set(b[k].items()) - set(a[k].items()))[:5]
+            e["after"] = sorted(set(a[k].items()) - set(b[k].items()))[:5]
+        elif k == "sys.path":
+            e["before"] = [x for x in b[k] if x not in a[k]][:5]
+            e["after"] = [x for x in a[k] if x not in b[k]][:5]
+        else:
+            e["before"], e["after"] = b[k], a[k]
+        out.append(e)
+    return out
+
+
 def run_call_checked(d, c):
     before = meta_snapshot()
+    pb = proc_snapshot()
     res = run_call(d, c)
+    pd = proc_diff(pb, proc_snapshot(), not res.get("ok"))
+    if pd:
+        res["process_state_changed"] = pd
     ch = meta_diff(before, meta_snapshot())
     if ch:
         res["class_metadata_changed"] = ch
     return res
 
 
+def warnings_probe(d, good, broken, swc):
+    """does a LATER loader call behave differently because an earlier load destroyed the user's warnings configuration?
+    The user asks for warnings as errors; SWCLoader.load_swc_single announces its deprecation with a FutureWarning."""
+    def swc_load():
+        try:
+            m = loaders.SWCLoader.load_swc_single(os.path.join(d, swc))
+            return "returned a morphology with %d vertices" % len(m.vertices)
+        except BaseException as e:
+            return "raised " + type(e).__name__
+
+    def fresh():
+        _warnings.simplefilter("error")
+        return {"swc": swc_load()}
+
+    def after_load():
+        _warnings.simplefilter("error")
+        n0 = len(_warnings.filters)
+        loaders.read_neuroml2_file(os.path.join(d, good))
+        return {"filters_before": n0, "filters_after": len(_warnings.filters), "swc": swc_load()}
+
+    def after_failed():
+        _warnings.simplefilter("error")
+        try:
+            loaders.read_neuroml2_string(open(os.path.join(d, broken)).read())
+            err = None
+        except BaseException as e:
+            err = type(e).__name__
+        return {"failed_with": err, "first_filter": _warnings.filters[0][0] if _warnings.filters else None, "swc": swc_load()}
+
+    return {"fresh": in_child(fresh), "after_load": in_child(after_load), "after_failed_load": in_child(after_failed)}
+
+
+
 def run_call(d, c):
-    path = os.path.join(d, c["name"])
+    path = c["name"] if c.get("rel") else os.path.join(d, c["name"])
+    base = None if c.get("base") == "none" else d
     ai = c.get("ai")
     kw = {}
     if ai is not None:
@@ -255,11 +384,11 @@ def run_call(d, c):
         if ep == "file":
             doc = loaders.read_neuroml2_file(path, include_includes=c["incl"], optimized=bool(c.get("opt")), **kw)
         elif ep == "string":
-            doc = loaders.read_neuroml2_string(open(path).read(), include_includes=c["incl"], base_path=d, **kw)
+            doc = loaders.read_neuroml2_string(open(path).read(), include_includes=c["incl"], base_path=base, **kw)
         elif ep == "inner_path":
             doc = loaders._read_neuroml2(path, include_includes=c["incl"], **kw)
         elif ep == "inner_str":
-            doc = loaders._read_neuroml2(open(path).read(), include_includes=c["incl"], base_path=d, **kw)
+            doc = loaders._read_neuroml2(open(path).read(), include_includes=c["incl"], base_path=base, **kw)
         elif ep == "h5":
             doc = loaders.NeuroMLHdf5Loader.load(path, optimized=bool(c.get("opt")))
         elif ep == "xml":
@@ -270,10 +399,22 @@ def run_call(d, c):
             pa.parse(path)
             doc = pa.nml_doc
             handler_doc = nb.get_nml_doc()
+        elif ep == "xmlparser_oldapi":      # a handler that only implements the old camelCase API
+            h = OldApiHandler()
+            pa = NeuroMLXMLParser(h)
+            pa.parse(path)
+            doc = pa.nml_doc
+            res["handler_calls"] = h.calls
+        elif ep == "h5_noprops":            # a handler whose handle_population has no `properties` parameter
+            h = NoPropsHandler()
+            pa = NeuroMLHdf5Parser(h)
+            pa.parse(path)
+            return {"ok": True, "items": [], "includes": [], "meta": [], "types": [], "nets": [], "handler_calls": h.calls}
         else:
             raise ValueError("unknown entry point " + ep)
         res["items"], res["includes"] = doc_items(doc)
         res["meta"] = [s(getattr(doc, "id", None)), s(getattr(doc, "notes", None))]
+        res["types"] = doc_types(doc)
         res["nets"] = net_dump(doc)
         if handler_doc is not None:
             hi, _ = doc_items(handler_doc)
@@ -513,6 +654,9 @@ def optlist():
 
 
 # ---------------------------------------------------------------------------------------- forking
+JOB_DIR = None
+
+
 def in_child(fn, timeout=120):
     r, w = os.pipe()
     pid = os.fork()
@@ -520,6 +664,8 @@ def in_child(fn, timeout=120):
         os.close(r)
         try:
             signal.alarm(timeout)
+            if JOB_DIR:
+                os.chdir(JOB_DIR)     # every job starts in the pool directory: relative paths mean the same in every run
             try:
                 out = {"ok": True, "value": fn()}
             except BaseException as e:
@@ -538,8 +684,10 @@ def in_child(fn, timeout=120):
 
 
 def main():
+    global JOB_DIR
     payload = json.loads(sys.stdin.read())
     d = payload.get("dir")
+    JOB_DIR = d
     out = {"jobs": []}
     if payload.get("pool"):
         out["pool"] = in_child(lambda: write_pool(d, payload["pool"]))
@@ -557,6 +705,8 @@ def main():
             r = in_child(lambda: parser_solo(d, job["file"]))
         elif k == "optlist":
             r = in_child(optlist)
+        elif k == "warnings_probe":
+            r = {"ok": True, "value": warnings_probe(d, job["good"], job["broken"], job["swc"])}
         else:
             r = {"ok": False, "error": "unknown job kind " + k}
         out["jobs"].append(r)
